@@ -21,13 +21,14 @@ Layers
   * `outcome`  — "equal" / "unequal" / "exc:<Type>" / "unmodelled".
 
 What is *not* modelled (trusted to CPython): tokenising/parsing of the text
-into the AST; `repr()`/literal round trip of `str`, `bytes`, finite `float`
+into the AST; `repr()`/literal round trip of
 and of opaque values whose `repr` is a constructor call (`Decimal('1.5')`,
 `XmlDate(2000, 1, 2)`): their text is an input (`repr` field) and evaluating
 it is taken to give the value back.
 -/
 import XsdataModel.Py.Basic
 import XsdataModel.Tables
+import XsdataModel.Conv.FloatRepr
 
 open Lean in
 /-- `cs!"abc"` = `['a','b','c']` (strings in the model are `List Char`) -/
@@ -47,12 +48,17 @@ inductive NumV
   | pinf
   | ninf
   | nan
+  /-- `Decimal('sNaN')`: every comparison with it raises `InvalidOperation` -/
+  | snan
 deriving DecidableEq, Repr
 
-/-- Python numeric `==` (exact; NaN equals nothing) -/
+/-- Python numeric `==` (exact; NaN equals nothing; a comparison with a
+signaling NaN raises - see `eqRaises` - and is `false` here) -/
 def NumV.eq : NumV → NumV → Bool
   | .nan, _ => false
   | _, .nan => false
+  | .snan, _ => false
+  | _, .snan => false
   | a, b => decide (a = b)
 
 def NumV.isFin : NumV → Bool
@@ -85,7 +91,7 @@ inductive Val
   | bool (b : Bool)
   | int (i : Int)
   /-- `repr` = `str(value)` -/
-  | float (n : NumV) (repr : Str)
+  | float (x : Xs.Conv.F64) (repr : Str)
   /-- `repr` = `repr(value)`; the domain predicate asks that it be a literal
       denoting `s` (it is for CPython's `repr`: `str_repr_roundtrips`) -/
   | str (s : Str) (repr : Str)
@@ -141,11 +147,45 @@ def World.fieldsOf (W : World) (r : ClsRef) : List FieldSpec :=
 
 /-! ## Python `==` -/
 
+/-- how often 2 divides `m` (at most `fuel` times) -/
+def twoAdic : Nat → Nat → Nat
+  | 0, _ => 0
+  | fuel + 1, m => if m ≠ 0 ∧ m % 2 = 0 then 1 + twoAdic fuel (m / 2) else 0
+
+/-- the exact value of a binary64 number as a fraction in lowest terms -/
+def numOfF64 : Xs.Conv.F64 → NumV
+  | .nan => .nan
+  | .inf neg => if neg then .ninf else .pinf
+  | .fin neg m q =>
+    if m = 0 then .fin 0 1
+    else
+      let sgn : Int := if neg then -1 else 1
+      if q ≥ 0 then .fin (sgn * (m * 2 ^ q.toNat : Nat)) 1
+      else
+        let k := min (twoAdic 64 m) (-q).toNat
+        .fin (sgn * (m / 2 ^ k : Nat)) (2 ^ ((-q).toNat - k))
+
+def f64Finite : Xs.Conv.F64 → Bool
+  | .fin _ _ _ => true
+  | _ => false
+
+/-- the value is one of the format: zero, a normal or a subnormal number, ±inf, NaN -/
+def f64Canonical : Xs.Conv.F64 → Bool
+  | .fin _ m q =>
+    (m == 0 && q == -1074) || (decide (2 ^ 52 ≤ m) && decide (m < 2 ^ 53) && decide (-1074 ≤ q) && decide (q ≤ 971))
+      || (decide (0 < m) && decide (m < 2 ^ 52) && q == -1074)
+  | _ => true
+
+/-- `float(text)`: the double a float token / the argument of `float("…")`
+denotes - C05's exact model of CPython's parsing and rounding -/
+def readFloat (t : Str) : Option Xs.Conv.F64 :=
+  (Xs.Conv.pyFloatLit Py.Env.ascii t).map Xs.Conv.FloatLit.toF64
+
 /-- numeric view of a value (bool ⊂ int; float; Decimal) -/
 def numOf : Val → Option NumV
   | .bool b => some (.fin (if b then 1 else 0) 1)
   | .int i => some (.fin i 1)
-  | .float n _ => some n
+  | .float x _ => some (numOfF64 x)
   | .opaque _ _ _ (some n) => some n
   | _ => Option.none
 
@@ -276,7 +316,7 @@ inductive PyExpr
   | arr (kind : ArrKind) (xs : List PyExpr)
   | dict (kvs : List (PyExpr × PyExpr))
   /-- `float("inf")` -/
-  | floatCall (n : NumV) (arg : Str)
+  | floatCall (x : Xs.Conv.F64) (arg : Str)
   /-- `QName(<json.dumps(text, ensure_ascii=False)>)` -/
   | qnameCall (text : Str)
   | opaqueCall (cls : ClsRef) (callee : List Str) (args : Str) (n : Option NumV)
@@ -438,7 +478,7 @@ def render (W : World) : Val → PyExpr
   | .none => .lit .none cs!"None" noneT
   | .bool b => .lit (.bool b) (if b then cs!"True" else cs!"False") boolT
   | .int i => .lit (.int i) (intStr i) intT
-  | .float n r => if n.isFin then .lit (.float n r) r floatT else .floatCall n r
+  | .float x r => if f64Finite x then .lit (.float x r) r floatT else .floatCall x r
   | .str s r => .lit (.str s r) r strT
   | .bytes c bs r => .lit (.bytes bytesT bs r) r c
   | .qname t => .qnameCall t
@@ -495,6 +535,8 @@ inductive Err
   | nameError
   | attributeError
   | typeError
+  /-- `decimal.InvalidOperation`, raised inside `render` by `default == value` -/
+  | invalidOperation
   /-- the rendered source does not compile -/
   | syntaxError
   /-- `xsdata.exceptions.SerializerError`, raised by `render` itself -/
@@ -507,6 +549,7 @@ def Err.name : Err → Str
   | .nameError => cs!"NameError"
   | .attributeError => cs!"AttributeError"
   | .typeError => cs!"TypeError"
+  | .invalidOperation => cs!"InvalidOperation"
   | .syntaxError => cs!"SyntaxError"
   | .serializerError => cs!"SerializerError"
   | .unmodelled => cs!"unmodelled"
@@ -780,11 +823,16 @@ mutual
 def eval (W : World) (env : Env) : PyExpr → Except Err Val
   | .lit v t _ =>
     -- a `str` / `bytes` token is read by the parser; other tokens are taken to
-    -- denote their payload (trusted: int, float, None, True/False)
+    -- denote their payload (trusted: int, None, True/False); a float token is
+    -- read with C05's model of `float()`
     match v with
     | .str _ _ =>
       match decodeStrLit t with
       | some s => .ok (.str s t)
+      | Option.none => .error .unmodelled
+    | .float _ _ =>
+      match readFloat t with
+      | some y => .ok (.float y t)
       | Option.none => .error .unmodelled
     | .bytes c _ _ =>
       match decodeBytesLit t with
@@ -824,10 +872,15 @@ def eval (W : World) (env : Env) : PyExpr → Except Err Val
     match evalKV W env kvs with
     | .error e => .error e
     | .ok ps => if ps.all (fun p => hashable p.1) then .ok (.dict ps) else .error .typeError
-  | .floatCall n a =>
+  | .floatCall _ a =>
     match resolve W env [floatCallee] with
     | .error e => .error e
-    | .ok r => if r = floatT then .ok (.float n a) else .error .unmodelled
+    | .ok r =>
+      if r = floatT then
+        match readFloat a with
+        | some y => .ok (.float y a)
+        | Option.none => .error .unmodelled
+      else .error .unmodelled
   | .qnameCall t =>
     match resolve W env [qnameCallee] with
     | .error e => .error e
@@ -903,6 +956,8 @@ mutual
 /-- does compiling the text depend on string-literal decoding this model does
 not cover (then the compile-time `SyntaxError` would pre-empt everything) -/
 def PyExpr.syntaxRisk : PyExpr → Bool
+  | .lit (.float _ _) t _ => (readFloat t).isNone
+  | .floatCall _ a => (readFloat a).isNone
   | .enumRef _ m => !enumNameOK m
   | .lit (.str _ _) t _ => (decodeStrLit t).isNone
   | .lit (.bytes _ _ _) t _ => (decodeBytesLit t).isNone
@@ -955,7 +1010,123 @@ float value is refused too) -/
 def clashFree (ts : List ClsRef) : Bool :=
   ts.all fun t => ts.all fun u => t.path.headD [] != u.path.headD [] || t.module == u.module
 
-/-- does `render(obj)` return (rather than raise `SerializerError`)? -/
+/-! ### comparisons that raise: `Decimal('sNaN')`
+
+`repr_model` evaluates `default == value` for every `init` field it visits.
+Comparing a number with a signaling NaN raises `decimal.InvalidOperation`, and
+nothing catches it: `render` itself fails. -/
+
+mutual
+def hasSNaN : Val → Bool
+  | .opaque _ _ _ (some .snan) => true
+  | .list xs => hasSNaNL xs
+  | .tuple xs => hasSNaNL xs
+  | .set _ xs => hasSNaNL xs
+  | .dict kvs => hasSNaNKV kvs
+  | .model _ xs => hasSNaNL xs
+  | _ => false
+def hasSNaNL : List Val → Bool
+  | [] => false
+  | x :: xs => hasSNaN x || hasSNaNL xs
+def hasSNaNKV : List (Val × Val) → Bool
+  | [] => false
+  | (k, v) :: r => hasSNaN k || hasSNaN v || hasSNaNKV r
+end
+
+/-- two numbers, one of them a signaling NaN -/
+def leafRaises (a b : Val) : Bool :=
+  match numOf a, numOf b with
+  | some x, some y => x == .snan || y == .snan
+  | _, _ => false
+
+mutual
+/-- does evaluating `a == b` raise `InvalidOperation`?  Lists and tuples of
+equal length are compared pairwise up to the first difference; `none`: a
+signaling NaN inside a dict / set comparison, not modelled -/
+def eqRaises (a b : Val) : Option Bool :=
+  match a with
+  | .list xs => match b with
+    | .list ys => if xs.length != ys.length then some false else eqRaisesL xs ys
+    | _ => some false
+  | .tuple xs => match b with
+    | .tuple ys => if xs.length != ys.length then some false else eqRaisesL xs ys
+    | _ => some false
+  | .dict kvs => match b with
+    | .dict kvs' => if hasSNaNKV kvs || hasSNaNKV kvs' then Option.none else some false
+    | _ => some false
+  | .set _ xs => match b with
+    | .set _ ys => if hasSNaNL xs || hasSNaNL ys then Option.none else some false
+    | _ => some false
+  | .model c xs => match b with
+    -- dataclass `__eq__`: same class, then the tuples of field values
+    | .model c' ys => if c != c' || xs.length != ys.length then some false else eqRaisesL xs ys
+    | _ => some false
+  | a' => some (leafRaises a' b)
+def eqRaisesL (xs ys : List Val) : Option Bool :=
+  match xs with
+  | [] => some false
+  | x :: xs' => match ys with
+    | [] => some false
+    | y :: ys' =>
+      match eqRaises x y with
+      | Option.none => Option.none
+      | some true => some true
+      | some false => if pyEq x y then eqRaisesL xs' ys' else some false
+end
+
+def defaultRaises : Default → Val → Option Bool
+  | .missing, _ => some false
+  | .value d, v => eqRaises d v
+  | .factory d, v => eqRaises d v
+
+/-- the loop of `repr_model`: `sub` are the results for the attribute values
+themselves (they are only visited when the field is rendered) -/
+def fieldsRaise : List FieldSpec → List Val → List (Option Bool) → Option Bool
+  | f :: fs, v :: vs, r :: rs =>
+    if !f.init then fieldsRaise fs vs rs
+    else match defaultRaises f.dflt v with
+      | Option.none => Option.none
+      | some true => some true
+      | some false =>
+        if elide f.dflt v then fieldsRaise fs vs rs
+        else match r with
+          | Option.none => Option.none
+          | some true => some true
+          | some false => fieldsRaise fs vs rs
+  | _, _, _ => some false
+
+def orRaise (a b : Option Bool) : Option Bool :=
+  match a with
+  | some true => some true
+  | Option.none => Option.none
+  | some false => b
+
+mutual
+/-- does `render` raise `InvalidOperation` while walking the value?
+(`some true` yes, `some false` no, `none` not modelled) -/
+def cmpRaises (W : World) : Val → Option Bool
+  | .list xs => cmpRaisesL W xs
+  | .tuple xs => cmpRaisesL W xs
+  | .set _ xs => cmpRaisesL W xs
+  | .dict kvs => cmpRaisesKV W kvs
+  | .model c attrs => fieldsRaise (W.fieldsOf c) attrs (cmpRaisesEach W attrs)
+  | _ => some false
+def cmpRaisesL (W : World) : List Val → Option Bool
+  | [] => some false
+  | x :: xs => orRaise (cmpRaises W x) (cmpRaisesL W xs)
+def cmpRaisesKV (W : World) : List (Val × Val) → Option Bool
+  | [] => some false
+  | (k, v) :: r => orRaise (cmpRaises W k) (orRaise (cmpRaises W v) (cmpRaisesKV W r))
+def cmpRaisesEach (W : World) : List Val → List (Option Bool)
+  | [] => []
+  | x :: xs => cmpRaises W x :: cmpRaisesEach W xs
+end
+
+/-- no `default == value` test met while rendering raises -/
+def comparesQuietly (W : World) (v : Val) : Bool := cmpRaises W v == some false
+
+/-- does `render(obj)` get past the name-clash test of `build_imports`
+(rather than raise `SerializerError`)? -/
 def renders (W : World) (v : Val) : Bool := clashFree (render W v).types
 
 /-- the text `render` returns when it returns -/
@@ -965,7 +1136,10 @@ def source (W : World) (v : Val) (var : Str) : Str :=
 
 /-- `PycodeSerializer.render(obj, var)` -/
 def sourceE (W : World) (v : Val) (var : Str) : Except Err Str :=
-  if renders W v then .ok (source W v var) else .error .serializerError
+  match cmpRaises W v with
+  | some true => .error .invalidOperation      -- raised while walking the object, before the imports are built
+  | Option.none => .error .unmodelled
+  | some false => if renders W v then .ok (source W v var) else .error .serializerError
 
 /-- the namespace the expression is evaluated in -/
 def importsEnv (W : World) (v : Val) : Env := imports (render W v).types
@@ -978,10 +1152,21 @@ def run (W : World) (v : Val) : Except Err Val :=
   if nestingOK W v then eval W (importsEnv W v) (render W v) else .error .syntaxError
 
 def outcome (W : World) (v : Val) : Str :=
+  match cmpRaises W v with
+  | Option.none => cs!"unmodelled"
+  | some true => cs!"refused:InvalidOperation"
+  | some false =>
   if !renders W v then cs!"refused:SerializerError" else
   if (render W v).syntaxRisk then cs!"unmodelled" else
   match run W v with
-  | .ok v' => if pyEq v' v then cs!"equal" else cs!"unequal"
+  | .ok v' =>
+    if pyEq v' v then cs!"equal"
+    else
+      -- the final `restored == original` may itself meet a signaling NaN
+      match eqRaises v' v with
+      | Option.none => cs!"unmodelled"
+      | some true => cs!"eqexc:InvalidOperation"
+      | some false => cs!"unequal"
   | .error .unmodelled => cs!"unmodelled"
   | .error e => cs!"exc:" ++ e.name
 
